@@ -54,8 +54,8 @@ func concrete(v AVal, unit int64, wrapBase *big.Int) (*big.Int, error) {
 	return nil, fmt.Errorf("abstract value kind %q cannot be concretised", v.K)
 }
 
-// abstract is the inverse of concrete and total: every number has an abstract value ("other" when it is none
-// of the named ones and too large or negative; the spec treats "other" as outside every bound).
+// abstract is the inverse of concrete and total: every number has an abstract value ("big" when it is none of
+// the named ones and above 2e9 units, "other" when below -1; the spec treats both as outside every bound).
 func abstract(x *big.Int, unit int64, wrapBase *big.Int) AVal {
 	if x == nil {
 		return AVal{K: "nil"}
@@ -80,7 +80,7 @@ func abstract(x *big.Int, unit int64, wrapBase *big.Int) AVal {
 	a.Div(a, u) // floor, x >= 0
 	b := new(big.Int).Sub(x, new(big.Int).Mul(a, u))
 	if !a.IsInt64() || a.Int64() > linMax {
-		return AVal{K: "other"}
+		return AVal{K: "big"}
 	}
 	return AVal{K: "lin", A: a.Int64(), B: b.Int64()}
 }
